@@ -104,9 +104,29 @@ func runC15(ctx *Ctx) {
 	ctx.CheckRapid("skip", ctx.N(120000, 1500000)/ctx.NShards+1, func(rt *rapid.T) *Case {
 		cfg := &model.StreamCfg{Labels: map[string]int{}}
 		var b []byte
-		switch rapid.IntRange(0, 6).Draw(rt, "class") {
+		switch rapid.IntRange(0, 7).Draw(rt, "class") {
 		case 0:
 			b = rapid.SliceOfN(rapid.Byte(), 0, 24).Draw(rt, "random")
+		case 1:
+			// deeply nested groups with a different field number per level
+			depth := rapid.IntRange(1, 70).Draw(rt, "groupdepth")
+			nums := make([]protowire.Number, depth)
+			for i := range nums {
+				nums[i] = protowire.Number(rapid.IntRange(1, 300).Draw(rt, "gnum"))
+			}
+			for _, n := range nums {
+				b = protowire.AppendTag(b, n, protowire.StartGroupType)
+				if rapid.IntRange(0, 3).Draw(rt, "inner") == 0 {
+					b = protowire.AppendVarint(protowire.AppendTag(b, protowire.Number(rapid.IntRange(1, 50).Draw(rt, "inum")), protowire.VarintType), rapid.Uint64().Draw(rt, "ival"))
+				}
+			}
+			for i := depth - 1; i >= 0; i-- {
+				b = protowire.AppendTag(b, nums[i], protowire.EndGroupType)
+			}
+			if rapid.IntRange(0, 4).Draw(rt, "breakgroup") == 0 && len(b) > 2 {
+				b[len(b)-1-rapid.IntRange(0, len(b)/2).Draw(rt, "bpos")] ^= 0x08
+			}
+			b = append(b, rapid.SliceOfN(rapid.Byte(), 0, 4).Draw(rt, "suffix")...)
 		default:
 			num := protowire.Number(rapid.OneOf(rapid.IntRange(1, 20), rapid.SampledFrom([]int{15, 16, 2047, 2048, 262143, 262144, 33554431, 33554432, 536870911})).Draw(rt, "num"))
 			b = cfg.UnknownRecordNum(rt, nil, num)
